@@ -1,6 +1,141 @@
-//! Property C01: correspondence and oracle (stub: nothing built yet).
-use crate::report::Report;
+//! Property C01: default rules preserve program behaviour.
+//!  (1) per rule: correspondence of the Lean rule models with the real `Rule::process`
+//!      (output trees identical) — `rulecheck::check_program`;
+//!  (2) oracle: original vs REAL output executed on the Lean reference semantics, for every
+//!      default rule alone, the default list, and random subsets in random order;
+//!  (3) end to end through `darklua_core::process` and the three generators: the generated
+//!      TEXT is parsed back and executed.
+use crate::exec;
+use crate::model::Model;
+use crate::progen::{self, Features};
+use crate::report::{Report, Violation};
+use crate::rng::Rng;
+use crate::rulecheck::{self, CaseResult, RuleCase};
+use serde_json::json;
+
+pub const DEFAULT_RULES: [&str; 13] = [
+    "remove_spaces",
+    "remove_comments",
+    "compute_expression",
+    "remove_unused_if_branch",
+    "remove_unused_while",
+    "filter_after_early_return",
+    "remove_empty_do",
+    "remove_unused_variable",
+    "remove_method_definition",
+    "convert_index_to_field",
+    "remove_nil_declaration",
+    "rename_variables",
+    "remove_function_call_parens",
+];
+
+fn modelled_rules(model: &mut Model) -> Vec<String> {
+    model.ask("c01.rules").split(' ').map(|s| s.to_owned()).filter(|s| !s.is_empty() && !s.starts_with("unknown")).collect()
+}
+
+/// end to end: real pipeline on memory resources, output text re-parsed and executed
+fn end_to_end(model: &mut Model, report: &mut Report, code: &str, rules: &[&str], generator: &str) {
+    let resources = darklua_core::Resources::from_memory();
+    resources.write("src/main.lua", code).unwrap();
+    let rule_list: Vec<String> = rules.iter().map(|r| format!("'{}'", r)).collect();
+    let config_text = format!("{{ generator: '{}', rules: [{}] }}", generator, rule_list.join(", "));
+    let config: darklua_core::Configuration = json5::from_str(&config_text).expect("configuration");
+    let result = std::panic::catch_unwind(std::panic::AssertUnwindSafe(|| {
+        darklua_core::process(&resources, darklua_core::Options::new("src").with_configuration(config))
+    }));
+    let ok = match result {
+        Ok(Ok(r)) => r.result().is_ok(),
+        Ok(Err(_)) => false,
+        Err(_) => {
+            report.violation(Violation {
+                kind: "oracle".into(),
+                check: "e2e:panic".into(),
+                what: "darklua_core::process panicked".into(),
+                input: json!({"config": config_text, "code": code}),
+                failing_input_found: true,
+            });
+            return;
+        }
+    };
+    if !ok {
+        report.count("e2e_process_error", 1);
+        return;
+    }
+    let output = resources.get("src/main.lua").unwrap();
+    let block0 = match exec::parse(code) { Ok(b) => b, Err(_) => return };
+    let block1 = match exec::parse(&output) {
+        Ok(b) => b,
+        Err(e) => {
+            report.violation(Violation {
+                kind: "oracle".into(),
+                check: "e2e:reparse".into(),
+                what: format!("output of the pipeline does not parse: {}", e),
+                input: json!({"config": config_text, "code": code, "output": output}),
+                failing_input_found: true,
+            });
+            return;
+        }
+    };
+    if let Some((o0, o1)) = rulecheck::oracle_compare(model, &block0, &block1) {
+        report.count("e2e_compared", 1);
+        if o0 != o1 {
+            report.violation(Violation {
+                kind: "oracle".into(),
+                check: format!("e2e:{}", generator),
+                what: "processed file behaves differently from the original".into(),
+                input: json!({"config": config_text, "code": code, "output": output, "original_outcome": o0, "transformed_outcome": o1}),
+                failing_input_found: true,
+            });
+        }
+    }
+}
 
 pub fn run(report: &mut Report, _replay: Option<&str>) {
-    report.notes.push("C01: no harness yet".to_owned());
+    let programs_per_thread: usize = if report.is_thorough() { 600 } else { 60 };
+    let threads = 12;
+    report.rule = "type-directed random Lua 5.1 programs (closures, upvalues, shadowing, varargs, multiple returns, \
+        effectful metamethods, loops with break, method calls, dead code); each program through every default rule alone \
+        (real Rule::process; tree compared with the Lean model where one exists; original and output executed on the \
+        Lean reference semantics), the default list and a random subset in random order end-to-end through \
+        darklua_core::process with each generator. Non-trivial = the rule changed the tree; distinct by (rule, program text)."
+        .to_owned();
+    let seed = report.seed;
+    report.parallel(threads, |tid, r| {
+        let mut model = Model::spawn();
+        let modelled = modelled_rules(&mut model);
+        let mut rng = Rng::new(seed.wrapping_mul(1000).wrapping_add(tid as u64));
+        for _ in 0..programs_per_thread {
+            let (code, used) = progen::generate(&mut rng.fork(), Features::lua51(), 60);
+            for u in &used {
+                r.hist("constructs", u);
+            }
+            for rule in DEFAULT_RULES.iter() {
+                let json_text = format!("'{}'", rule);
+                let case = RuleCase { prop: "c01", rule_name: rule, rule_json: &json_text, modelled: modelled.iter().any(|m| m == rule) };
+                let result = rulecheck::check_program(&mut model, r, &case, &code);
+                match &result {
+                    CaseResult::Fired => {
+                        r.hist("rule_fired", rule);
+                        r.case(Some((rule, &code)));
+                    }
+                    CaseResult::Trivial => r.case(None::<u8>),
+                    CaseResult::Skipped(why) => {
+                        r.hist("skipped", why);
+                        r.case(None::<u8>);
+                    }
+                }
+                if r.samples.is_empty() && result == CaseResult::Fired {
+                    r.sample(json!({"rule": rule, "code": code}));
+                }
+            }
+            // pipelines end to end
+            let generator = *rng.pick(&["retain_lines", "dense", "readable"]);
+            end_to_end(&mut model, r, &code, &DEFAULT_RULES, generator);
+            let mut subset: Vec<&str> = DEFAULT_RULES.iter().copied().filter(|_| rng.chance(1, 2)).collect();
+            rng.shuffle(&mut subset);
+            let generator = *rng.pick(&["retain_lines", "dense", "readable"]);
+            end_to_end(&mut model, r, &code, &subset, generator);
+            r.case(None::<u8>);
+        }
+    });
 }
